@@ -397,6 +397,8 @@ def oracles(lines):
         op = w[0]
         if res in ("noop", "bad-op"):
             return
+        if op not in ("QC", "SH") and len(w) > 1 and w[1].isdigit():
+            last_cap.pop(int(w[1]), None)   # any other call of that thread may have grown its queue since the capacity was read
         if op == "QC":
             m = re.match(r"cap=(\d+)", res)
             if m:
